@@ -781,42 +781,12 @@ def e2e(ctx, cases, impl, accepted, ncorpus, nvalid):
         shutil.rmtree(tmp, ignore_errors=True)
 
 
-KNOWN_CREATE_OPTIONS = {"dry-run", "follow-symlinks", "force", "help", "ignore", "include-hidden", "include-junk", "md5", "no-created-by",
-                        "no-creation-date", "open", "link", "private", "show", "version", "allow", "announce", "announce-tier", "comment",
-                        "node", "glob", "input", "name", "output", "peer", "piece-length", "sort-by", "source", "update-url"}
-
-
-def unknown_create_options(ctx):
-    """Options of `torrent create` this check does not know, read from the binary's own --help: [(flag, value or None)]. A new
-    option is a new input of the command; it is given (with a plausible value made from its placeholder) in part of the
-    create runs, so that whatever it does to the written dictionary is also seen by the five reported infohashes. (Added after
-    seeded change C04-15: `--info-entry KEY=VALUE` entries were written to the file but not hashed by --link / --show.)"""
-    rc, out, err = ctx.imdl(["torrent", "create", "--help"], env={"NO_COLOR": "1", "TERM": "dumb", "IMDL_TERM_WIDTH": "400"})
-    found = []
-    for m in re.finditer(rb"^\s+(?:-\w, )?--([a-z][a-z0-9-]*)(?:\s+<([^>\n]+)>)?", out, re.M):
-        name, ph = m.group(1).decode(), (m.group(2) or b"").decode()
-        if name in KNOWN_CREATE_OPTIONS or any(name == f[0][2:] for f in found):
-            continue
-        if not ph:
-            val = None
-        elif "=" in ph:
-            val = "x_custom=value %d" % len(found)
-        elif "URL" in ph.upper():
-            val = "http://new.example/x"
-        elif any(w in ph.upper() for w in ("NUM", "COUNT", "BYTES", "SIZE", "N")) and len(ph) < 8:
-            val = "1"
-        else:
-            val = "x-value"
-        found.append(("--" + name, val))
-    return found
-
-
 def created(ctx):
     """create --link --show, then show / show --json / link on the file create wrote: five infohashes, one span"""
     r = ctx.rng
     tmp = tempfile.mkdtemp(prefix="c04c-")
     jobs = []
-    new_opts = unknown_create_options(ctx)
+    new_opts = lib.unknown_options(ctx.bins["imdl"], ["torrent", "create"])
     if new_opts:
         msg = "`imdl torrent create --help` lists options this check does not know (%s); they are given in part of the create runs" % \
               ", ".join(f for f, _ in new_opts)
